@@ -547,7 +547,9 @@ def run_case(case, M, tier="quick"):
     lang_progs = sorted((p for p, _ in lang), key=show) if lang is not None else []
     plan = plan_of(case, len(lang_progs))
     unary = all(len(args) <= 1 for rs in g.rules.values() for args, _ in rs.values())
-    if rec or (case.get("merges") and unary):
+    import inspect as _inspect
+    fixed_loop = "max_cost" in _inspect.getsource(BeeSearch.generator)
+    if rec or (case.get("merges") and unary and not fixed_loop):
         cost_bound = None       # after a merge the loop stops after 1000 unproductive rounds: affordable on unary grammars
     else:
         cost_bound = max(c for _, c in lang)
@@ -602,7 +604,12 @@ def run_case(case, M, tier="quick"):
     if len(members) > 120:
         members = prng.sample(members, 120)
     probes = members + [mutate(prng, p, syms) for p in members[:40]]
-    ans = M.ask([Sym("bee.run"), gw, [wire.prog(p) for p in rejected], scriptw, FUEL, int(nprog), [wire.prog(p) for p in probes]])
+    # which variant of the generator loop does the tree implement? (proposed repair of C12-F11: stop at the maximal cost)
+    import inspect
+    fixed = "max_cost" in inspect.getsource(BeeSearch.generator)
+    out["fixed"] = fixed
+    maxc = Sym("none") if (lang is None or not fixed) else int(max(c for _, c in lang))
+    ans = M.ask([Sym("bee.run"), gw, [wire.prog(p) for p in rejected], scriptw, FUEL, int(nprog), [wire.prog(p) for p in probes], fixed, maxc])
     corr = out["corr"]
     out["wire"] = wire
     if ans[0] == "undef":
@@ -668,6 +675,7 @@ def base_tags(case, r):
         n = len(r["lang"])
         tags.append("lang<10" if n < 10 else "lang<100" if n < 100 else "lang<1000" if n < 1000 else "lang>=1000")
     tags.append("zero-cost-rule-with-arguments(C02-F6 region)" if r["zero"] else "positive-costs")
+    tags.append("impl:stops-at-max-cost(C12-F11 repaired)" if r.get("fixed") else "impl:stops-on-program-count(as is)")
     if r.get("budget_cut"):
         tags.append("inconclusive:run-cut-by-time/size-budget")
     elif r.get("cut"):
